@@ -139,6 +139,12 @@ inductive Pre where
   | flush                  -- c.Response().Flush()  (commits with 200 since the F5 repair)
   | jsonBad (c : Nat)      -- c.JSON(c, unserialisable): status preset, nothing sent
   | writeHeader (c : Nat)  -- c.Response().WriteHeader(c)
+  /-- the failing code started to send status `c`, but the commit itself panicked — a
+      `Response.Before` hook panicked, or the underlying writer refused the code (net/http
+      panics on codes outside 100..999).  `Response.WriteHeader` sets `Committed` only after
+      hooks and forward, so nothing is out and the response is still uncommitted (this is
+      `C06.C06_refused_commit` seen from here); the panic then travels like any other. -/
+  | commitAborted (c : Nat)
 deriving DecidableEq, Repr, Inhabited
 
 def applyPre : Pre → Out
@@ -148,6 +154,7 @@ def applyPre : Pre → Out
   | .flush => { calls := [200], committed := true }
   | .jsonBad _ => {}
   | .writeHeader c => { calls := [c], committed := true }
+  | .commitAborted _ => {}
 
 inductive PanicVal where
   | error (e : Err)     -- panic(err)
@@ -337,6 +344,7 @@ def pPre : P Pre := do
   | 3 => pure .flush
   | 4 => pure (.jsonBad c)
   | 5 => pure (.writeHeader c)
+  | 6 => pure (.commitAborted c)
   | _ => failure
 
 def pRaise : P Raise := do
